@@ -7,6 +7,7 @@ import (
 	"go/token"
 	"os"
 	"path/filepath"
+	"reflect"
 	"sort"
 	"strings"
 
@@ -36,7 +37,11 @@ type decLayer struct {
 	MaxLen int
 }
 
-func genericSnap(l decoder) string { return fmt.Sprintf("%+v", l) }
+// genericSnap renders every field of the layer (exported and unexported, and
+// the BaseLayer contents/payload) by reflection. fmt's %+v is not used: a
+// layer that embeds a type with a String method (ipmi.Message embeds
+// Operation) would be rendered by that method and hide its other fields.
+func genericSnap(l decoder) string { return canonNamed(reflect.ValueOf(l)) }
 
 var aesKey = [16]byte{1, 2, 3, 4, 5, 6, 7, 8, 9, 10, 11, 12, 13, 14, 15, 16}
 
